@@ -22,6 +22,7 @@ import SqiProofs.C17.Conv
 import SqiProofs.C17.Kernel
 import SqiProofs.C17.Kernel2
 import SqiProofs.C17.RepInt
+import SqiProofs.C17.CornComplete
 import SqiProofs.Primes
 
 namespace SqiProps.C17
@@ -358,6 +359,37 @@ descent; it is exercised by the correspondence generator on planted-solution inp
 theorem cornacchia_prime_sound (n p x y : Int) (h : ibzCornacchiaPrime n p = .ok (x, y)) : x * x + n * (y * y) = p :=
   cornacchiaPrime_sound n p x y h
 example : ibzCornacchiaPrime 1 29 = .ok (5, 2) ∧ ibzCornacchiaPrime 1 2 = .ok (1, 1) ∧ ibzCornacchiaPrime 2 7 = .fail := by decide
+
+/-- COMPLETENESS of `ibz_cornacchia_prime` for n = 1 — the only value `ibz_cornacchia_extended` and `represent_integer*`
+    ever pass: for EVERY prime p that is a sum of two squares (p = 2 or p ≡ 1 mod 4) the routine returns x, y with
+    x² + y² = p.  No existence hypothesis is needed: the Euclidean-descent invariant (a·u_b + b·u_a = p,
+    p | a² + u_a², p | b² + u_b², p | ab − u_a u_b) shows that the first remainder below √p gives a representation — a
+    constructive proof of Fermat's two-square theorem on the model of the C code.
+    For general n completeness stays unproved (partial): the same invariant only yields x² + n·u² = m·p with 1 ≤ m ≤ n. -/
+theorem cornacchia_prime_complete_n1 (pn : Nat) (hp : pn.Prime) (h4 : pn = 2 ∨ pn % 4 = 1) :
+    ∃ x y : Int, ibzCornacchiaPrime 1 pn = .ok (x, y) ∧ x * x + y * y = pn := by
+  rcases h4 with h2 | h4
+  · subst h2; exact ⟨1, 1, by decide, by decide⟩
+  · haveI := Fact.mk hp
+    have hsq : IsSquare (((0 - 1 : Int)) : ZMod pn) := by
+      have : IsSquare (-1 : ZMod pn) := ZMod.exists_sq_eq_neg_one_iff.mpr (by omega)
+      simpa using this
+    obtain ⟨r, hr⟩ := sqrt_mod_p_complete pn hp (0 - 1) hsq
+    obtain ⟨hr0, hrp, hrr⟩ := sqrt_mod_p_sound pn hp (0 - 1) r hr
+    have hppos : (0 : Int) < pn := by have := hp.pos; omega
+    have hdvd : (pn : Int) ∣ r * r + 1 * 1 := by
+      have := Int.dvd_of_emod_eq_zero hrr
+      have e : r * r - (0 - 1) = r * r + 1 * 1 := by ring
+      rwa [e] at this
+    obtain ⟨c, u, hloop, hc0, hu0, hcu⟩ := cornLoop_descent (pn : Int) hppos ((pn : Int).natAbs + 2) r pn 1 0
+      hr0 hppos (by omega) (le_refl _) (by simp) hdvd ⟨(pn : Int), by ring⟩ ⟨r, by ring⟩ (by ring)
+      (by have := hp.one_le; nlinarith)
+    refine ⟨c, u, ?_, hcu⟩
+    unfold ibzCornacchiaPrime
+    have hne : ((pn : Int) = 2) = False := by simp; omega
+    simp only [hne, if_false, hr, hloop]
+    exact cornFinish_one _ _ _ hu0 hcu
+example : ibzCornacchiaPrime 1 13 = .ok (3, 2) ∧ ibzCornacchiaPrime 1 97 = .ok (9, 4) ∧ Nat.Prime 97 := by decide
 
 /-- `ibz_cornacchia_special_prime` (x² + n·y² = 2^e·p), repaired code: never a false solution under the documented
     contract n ≡ 3 (mod 4) alone — no coprimality side condition any more (p | n now reports failure). -/
